@@ -19,7 +19,9 @@ type rootObj struct {
 	Subscription *struct{}
 }
 
-func newRootObj() *rootObj { return &rootObj{Query: &struct{}{}, Mutation: &struct{}{}, Subscription: &struct{}{}} }
+func newRootObj() *rootObj {
+	return &rootObj{Query: &struct{}{}, Mutation: &struct{}{}, Subscription: &struct{}{}}
+}
 
 // loadFresh loads SDL into a fresh root. A load that does not return within the
 // watchdog is reported as pan="hang" (the goroutine is abandoned).
@@ -52,19 +54,47 @@ func loadFresh(sdl string) (root *ggql.Root, err error, pan interface{}) {
 
 // c13Case is one (schema, mutation) pair; Kind "" = the well-formed schema itself.
 type c13Case struct {
-	SDL      string    `json:"sdl"`
+	SDL string `json:"sdl"`
+	// Then: documents loaded after SDL into the same root (the offending part of a mutation arrives last)
+	Then     []string  `json:"then,omitempty"`
 	Mutation *Mutation `json:"mutation,omitempty"`
 	Fuzzed   bool      `json:"fuzzed,omitempty"`
+
+	runUpRefused bool // set by the check: the first document of a late form was itself refused
 }
 
 var memberDirKinds = map[string]bool{"dir-wrong-location-field": true, "dir-wrong-location-arg": true, "dir-wrong-location-inputfield": true,
 	"dir-unknown-arg-field": true, "dir-uncoercible-arg-field": true}
+
+func (c *c13Case) text() string {
+	return strings.Join(append([]string{c.SDL}, c.Then...), "\n-------- next load into the same root --------\n")
+}
 
 func checkC13(c *c13Case) (ds []hx.Discrepancy, accepted bool) {
 	add := func(kind, sig, format string, args ...interface{}) {
 		ds = append(ds, hx.Discrepancy{Kind: kind, Sig: sig, Detail: fmt.Sprintf(format, args...)})
 	}
 	root, err, pan := loadFresh(c.SDL)
+	if len(c.Then) > 0 && err == nil && pan == nil {
+		// the first document is only the run-up: the verdict is that of the later loads
+		for _, txt := range c.Then {
+			func() {
+				defer func() {
+					if r := recover(); r != nil {
+						pan = r
+					}
+				}()
+				err = root.ParseString(txt)
+			}()
+			if err != nil || pan != nil {
+				break
+			}
+		}
+	} else if len(c.Then) > 0 && pan == nil {
+		// the run-up itself is refused (removing the member left an ill-formed rest): not a verdict on the mutation
+		c.runUpRefused = true
+		return nil, false
+	}
 	if pan != nil {
 		if c.Fuzzed {
 			return // crashes on arbitrary text are C03's subject
@@ -86,7 +116,7 @@ func checkC13(c *c13Case) (ds []hx.Discrepancy, accepted bool) {
 			if memberDirKinds[m.Kind] {
 				sig = "KF-C13-member-directives"
 			}
-			add("false-accept", sig, "schema violating %s was accepted\n%s", fmtMutation(*m), c.SDL)
+			add("false-accept", sig, "schema violating %s was accepted\n%s", fmtMutation(*m), c.text())
 		} else {
 			named := false
 			for _, n := range m.Names {
@@ -99,7 +129,7 @@ func checkC13(c *c13Case) (ds []hx.Discrepancy, accepted bool) {
 				if strings.HasPrefix(m.Kind, "dir-uncoercible-arg") && strings.Contains(err.Error(), "can not coerce") {
 					sig = "KF-C13-coercion-error-unnamed"
 				}
-				add("error-does-not-name-offender", sig, "violation %s was refused with an error that names none of %v: %v\n%s", fmtMutation(*m), m.Names, err, c.SDL)
+				add("error-does-not-name-offender", sig, "violation %s was refused with an error that names none of %v: %v\n%s", fmtMutation(*m), m.Names, err, c.text())
 			}
 		}
 	}
@@ -174,6 +204,13 @@ func TestC13(t *testing.T) {
 		}
 		m := c.Mutation
 		cl := []string{"mutation=" + m.Kind, "rule=" + m.Rule, m.Rule + "/" + m.Position}
+		if len(c.Then) > 0 {
+			cl = []string{"late-form", "late-form/" + m.Rule}
+			if c.runUpRefused {
+				return false, []string{"late-form-run-up-refused"}
+			}
+			cl = append(cl, "late-form-offender-in-last-load", "late-form="+m.Kind)
+		}
 		if m.Nested {
 			cl = append(cl, "nested-in-wrappers")
 		}
@@ -184,7 +221,7 @@ func TestC13(t *testing.T) {
 		nt, cl := classes(c, acc)
 		run.Case(hx.Hash(c), nt, cl...)
 		run.Sample(func() interface{} {
-			m := map[string]interface{}{"sdl": hx.Trunc(c.SDL, 700), "accepted": acc}
+			m := map[string]interface{}{"sdl": hx.Trunc(c.text(), 700), "accepted": acc}
 			if c.Mutation != nil {
 				m["mutation"] = fmtMutation(*c.Mutation)
 			}
@@ -224,6 +261,10 @@ func TestC13(t *testing.T) {
 			}
 			mm := m
 			one(rt.Fatalf, &c13Case{SDL: Render(ms, &mm, o), Mutation: &mm})
+			// the same violation with the offending part arriving in a later load
+			for _, docs := range LateForms(ms, &mm, o) {
+				one(rt.Fatalf, &c13Case{SDL: docs[0], Then: docs[1:], Mutation: &mm})
+			}
 		}
 		// converse on arbitrary accepted text
 		for i := 0; i < 3; i++ {
